@@ -1,16 +1,30 @@
 (* C17 driver: trace acceptor for the thread-pool protocol.
    Reads the scenarios printed by harness/c17_pool.cpp, rebuilds the configuration in the extracted model,
-   translates the implementation's linearised hook events to model events and requires `step` to accept
+   translates the implementation's linearised hook events to model events and requires the model to accept
    them (modulo the unobservable steps: spurious wake-ups, and the completion of a task, which really
    happens when the promise is set, i.e. possibly before the worker logs DONE).  Then compares what the
-   model derives (who ran what, what was dropped, map results, chunk bounds) with what the operators saw. *)
-let max_model_tasks = 400
+   model derives (who ran what, what was dropped, map results, chunk bounds) with what the operators saw.
 
-let total = ref 0 and mism = ref 0 and accepted = ref 0 and skipped = ref 0 and events_checked = ref 0
+   FAST stage (extension): ALL traces, whatever their size, are replayed through `stepN` (C17_Fast_Defs: binary
+   ids, positional lists, tries), which C17_Fast.v proves to be a refinement of the proved model `step`
+   (C17_fast_refines / C17_fast_reachable): an accepted trace is an execution of the proved model.
+   LOCKED stage: lock-protected hook events carry the queue length / stop flag read under the verified lock;
+   they must equal the model's queue / stop at that step.
+   CROSS stage: for scenarios with at most `max_cross_tasks` tasks the accepted event sequence is replayed through
+   the unary model `run` as well and the observable parts of the final states are compared (a run-time test of
+   the refinement theorem and of the extraction). *)
+let max_cross_tasks = 400
+
+let total = ref 0 and mism = ref 0 and accepted = ref 0 and crossed = ref 0 and events_checked = ref 0
+let locked_checked = ref 0 and max_tasks = ref 0 and model_steps = ref 0
 let bad fmt = Printf.ksprintf (fun s -> incr mism; print_endline ("MISMATCH " ^ s)) fmt
 
 let words s = List.filter (fun x -> x <> "") (String.split_on_char ' ' s)
 let ints s = List.map int_of_string (List.filter (fun x -> x <> "") (String.split_on_char ',' s))
+
+(* binary naturals of the extracted model *)
+let n_of_int (k : int) : n = if k <= 0 then N0 else Npos (pos_of_int k)
+let int_of_n (x : n) : int = match x with N0 -> 0 | Npos p -> int_of_pos p
 
 type scen = {
   mutable id : int; mutable hang : bool; mutable nw : int;
@@ -22,21 +36,34 @@ type scen = {
 
 let nat = nat_of_int
 let rec range a b = if a >= b then [] else a :: range (a + 1) b
+let range_tr a b = let rec go k acc = if k < a then acc else go (k - 1) (k :: acc) in go (b - 1) []
 
 let stage_name = function
-  | SReady -> "SReady" | SNotifyOne -> "SNotifyOne" | SNotifyAll _ -> "SNotifyAll" | SGet _ -> "SGet"
-  | SWait _ -> "SWait" | SNotifyStop -> "SNotifyStop" | SJoin -> "SJoin"
+  | SReadyN -> "SReady" | SNotifyOneN -> "SNotifyOne" | SNotifyAllN _ -> "SNotifyAll" | SGetN _ -> "SGet"
+  | SWaitN _ -> "SWait" | SNotifyStopN -> "SNotifyStop" | SJoinN -> "SJoin"
 
 let event_name = function
-  | EPush s -> Printf.sprintf "EPush %d" (int_of_nat s)
-  | ENotify (s, None) -> Printf.sprintf "ENotify %d None" (int_of_nat s)
-  | ENotify (s, Some w) -> Printf.sprintf "ENotify %d (Some %d)" (int_of_nat s) (int_of_nat w)
-  | EGet s -> Printf.sprintf "EGet %d" (int_of_nat s) | EWait s -> Printf.sprintf "EWait %d" (int_of_nat s)
-  | ECheck w -> Printf.sprintf "ECheck %d" (int_of_nat w) | EFinish w -> Printf.sprintf "EFinish %d" (int_of_nat w)
-  | ESpurious w -> Printf.sprintf "ESpurious %d" (int_of_nat w) | EStop s -> Printf.sprintf "EStop %d" (int_of_nat s)
-  | ENotifyStop s -> Printf.sprintf "ENotifyStop %d" (int_of_nat s) | EJoin s -> Printf.sprintf "EJoin %d" (int_of_nat s)
+  | EPushN s -> Printf.sprintf "EPush %d" (int_of_n s)
+  | ENotifyN (s, None) -> Printf.sprintf "ENotify %d None" (int_of_n s)
+  | ENotifyN (s, Some w) -> Printf.sprintf "ENotify %d (Some %d)" (int_of_n s) (int_of_n w)
+  | EGetN s -> Printf.sprintf "EGet %d" (int_of_n s) | EWaitN s -> Printf.sprintf "EWait %d" (int_of_n s)
+  | ECheckN w -> Printf.sprintf "ECheck %d" (int_of_n w) | EFinishN w -> Printf.sprintf "EFinish %d" (int_of_n w)
+  | ESpuriousN w -> Printf.sprintf "ESpurious %d" (int_of_n w) | EStopN s -> Printf.sprintf "EStop %d" (int_of_n s)
+  | ENotifyStopN s -> Printf.sprintf "ENotifyStop %d" (int_of_n s) | EJoinN s -> Printf.sprintf "EJoin %d" (int_of_n s)
+
+(* the abstraction of C17_Fast.v on events and calls (abs_e, abs_call), for the CROSS stage *)
+let un (x : n) : nat = nat (int_of_n x)
+let abs_event = function
+  | EPushN s -> EPush (un s) | ENotifyN (s, w) -> ENotify (un s, (match w with None -> None | Some w -> Some (un w)))
+  | EGetN s -> EGet (un s) | EWaitN s -> EWait (un s) | ECheckN w -> ECheck (un w) | EFinishN w -> EFinish (un w)
+  | ESpuriousN w -> ESpurious (un w) | EStopN s -> EStop (un s) | ENotifyStopN s -> ENotifyStop (un s) | EJoinN s -> EJoin (un s)
+let abs_call = function
+  | CEnqueueN t -> CEnqueue (un t) | CMapN (ts, r) -> CMap (List.map un ts, r) | CDestroyN -> CDestroy
 
 exception Reject of string
+
+let nth_sub (p : poolN) (s : int) : subN = List.nth p.f_subs s
+let nth_worker (p : poolN) (w : int) : wstateN = List.nth p.f_workers w
 
 let process (sc : scen) =
   incr total;
@@ -47,15 +74,17 @@ let process (sc : scen) =
     | "MAP" :: id0 :: count :: rz :: _ ->
       let id0 = int_of_string id0 and count = int_of_string count in
       ntasks := max !ntasks (id0 + count);
-      CMap (List.map nat (range id0 (id0 + count)), rz = "1")
+      CMapN (List.map n_of_int (range_tr id0 (id0 + count)), rz = "1")
     | "CHUNK" :: id0 :: count :: rz :: _ ->
       let id0 = int_of_string id0 and count = int_of_string count in
       ntasks := max !ntasks (id0 + count);
-      CMap (List.map nat (range id0 (id0 + count)), rz = "1")
-    | "ENQ" :: id0 :: _ -> ntasks := max !ntasks (int_of_string id0 + 1); CEnqueue (nat (int_of_string id0))
-    | "DESTROY" :: _ -> CDestroy
+      CMapN (List.map n_of_int (range_tr id0 (id0 + count)), rz = "1")
+    | "ENQ" :: id0 :: _ -> ntasks := max !ntasks (int_of_string id0 + 1); CEnqueueN (n_of_int (int_of_string id0))
+    | "DESTROY" :: _ -> CDestroyN
     | _ -> failwith ("bad call " ^ w) in
   let progs = List.map (fun ws -> List.map call_of ws) sc.progs in
+  let nsubs = List.length progs in
+  if !ntasks > !max_tasks then max_tasks := !ntasks;
   (* chunk bounds: model vs what the operators saw (always checked, whatever the size) *)
   List.iter (fun (el, cs, seen) ->
       let m = chunks (z_of_int el) (z_of_int cs) in
@@ -66,100 +95,125 @@ let process (sc : scen) =
       if not ok then bad "scenario %d: chunks of map(%d, %d): model %s, operators saw %s" sc.id el cs (String.concat " " ms) (String.concat " " seen);
       if mi <> ms then bad "scenario %d: fast-path chunks differ from pool chunks in the model for map(%d,%d)" sc.id el cs)
     sc.chunks;
-  if !ntasks > max_model_tasks then incr skipped
-  else begin
+  begin
     let tbl = Hashtbl.create 16 in
     List.iter (fun t -> Hashtbl.replace tbl t ()) sc.throws;
-    let thr t = Hashtbl.mem tbl (int_of_nat t) in
-    if not (wf_config (nat sc.nw) progs) then bad "scenario %d: configuration not well-formed in the model" sc.id
+    let thr t = Hashtbl.mem tbl (int_of_n t) in
+    if not (wf_configN (nat sc.nw) progs) then bad "scenario %d: configuration not well-formed in the model" sc.id
     else begin
-      let p = ref (init (nat sc.nw) thr progs) in
+      let p = ref (initN (nat sc.nw) thr progs) in
+      let applied = ref [] in                  (* the model events applied, newest first (CROSS stage) *)
       let early = Hashtbl.create 8 in          (* workers whose EFinish was applied before their DONE event *)
       let idx = ref 0 in
       let apply e =
-        match step !p e with
-        | Some q -> p := q
+        incr model_steps;
+        match stepN !p e with
+        | Some q -> p := q; applied := e :: !applied
         | None -> raise (Reject (Printf.sprintf "model step %s not enabled" (event_name e))) in
       (* make task t complete if it is still running in the model (the promise is set before DONE is logged) *)
       let force_complete t =
-        if not (complete !p t) then begin
+        if not (completeN !p t) then begin
           let found = ref false in
-          List.iter (fun w ->
-              match !p.workers (nat w) with
-              | WRunning t' when t' = t -> found := true; apply (EFinish (nat w)); Hashtbl.replace early w ()
-              | _ -> ()) (range 0 sc.nw);
-          if not !found then raise (Reject (Printf.sprintf "future of task %d reported ready but the task is neither finished, dropped nor running in the model" (int_of_nat t)))
+          List.iteri (fun w st ->
+              match st with
+              | WRunningN t' when t' = t && not !found -> found := true; apply (EFinishN (n_of_int w)); Hashtbl.replace early w ()
+              | _ -> ()) !p.f_workers;
+          if not !found then raise (Reject (Printf.sprintf "future of task %d reported ready but the task is neither finished, dropped nor running in the model" (int_of_n t)))
         end in
       let rec silent s =
-        match (!p.subs (nat s)).stg with
-        | SGet ([], _, _) -> apply (EGet (nat s)); silent s
-        | SWait ([], _, _, _) -> apply (EWait (nat s)); silent s
+        match (nth_sub !p s).stgN with
+        | SGetN ([], _, _) -> apply (EGetN (n_of_int s)); silent s
+        | SWaitN ([], _, _, _) -> apply (EWaitN (n_of_int s)); silent s
         | _ -> () in
+      (* LOCKED stage: what the hook read under the verified lock against the model's protected state.
+         The queue is compared by length; long queues are compared on a sample of the pops (cost) and on every push / stop / exit *)
+      let check_locked kind q st ~before =
+        if q >= 0 then begin
+          let frequent = (kind = "POP") in
+          if (not frequent) || q <= 64 || !idx mod 61 = 0 then begin
+            incr locked_checked;
+            ignore before;   (* EXIT is compared before the model step (the hook fires before m_tasks.clear()), the others after *)
+            if List.compare_length_with !p.f_queue q <> 0 then
+              raise (Reject (Printf.sprintf "%s: the implementation's queue holds %d tasks under the lock, the model's %d" kind q (List.length !p.f_queue)));
+            if st >= 0 && (st = 1) <> !p.f_stop then
+              raise (Reject (Printf.sprintf "%s: m_stop is %d under the lock, the model's stop flag is %b" kind st !p.f_stop))
+          end
+        end in
       (try
          List.iter (fun ev ->
              incr idx; incr events_checked;
-             match String.split_on_char ':' ev with
-             | [kind; actor; a] ->
-               let actor = int_of_string actor in
-               let a = int_of_string a in
-               (match kind with
-                | "PUSH1" -> silent actor; apply (EPush (nat actor));
-                  if (!p.subs (nat actor)).stg <> SNotifyOne then raise (Reject "enqueue: the model did not push one task")
-                | "NOTIFY1" -> apply (ENotify (nat actor, None))
-                | "INLINE" -> silent actor; apply (EPush (nat actor));
-                  if (!p.subs (nat actor)).stg <> SReady then raise (Reject "implementation took the fast path, the model the pool path")
-                | "PUSHN" -> silent actor; apply (EPush (nat actor));
-                  (match (!p.subs (nat actor)).stg with
-                   | SNotifyAll (ts, _) -> if List.length ts <> a then raise (Reject (Printf.sprintf "map pushed %d tasks, the model %d" a (List.length ts)))
-                   | _ -> raise (Reject "implementation took the pool path, the model the fast path"))
-                | "NOTIFYN" -> apply (ENotify (nat actor, None))
-                | "VISIT" ->
-                  (* a throwing get() leaves block(raise) without an event: if the model is still in block(raise)
-                     at a future that re-throws, the visit belongs to ~section_t *)
-                  let rec go () =
-                    match (!p.subs (nat actor)).stg with
-                    | SGet ([], _, _) -> apply (EGet (nat actor)); go ()
-                    | SGet (t :: _, _, rz) ->
-                      force_complete t;
-                      if rz && fails !p t then begin
-                        if a = 1 then raise (Reject (Printf.sprintf "block(raise) passed the future of task %d although it must re-throw" (int_of_nat t)));
-                        apply (EGet (nat actor)); go ()
-                      end else apply (EGet (nat actor))
-                    | SWait (t :: _, _, _, _) -> force_complete t; apply (EWait (nat actor))
-                    | st -> raise (Reject ("future visited while the model thread is in stage " ^ stage_name st)) in
-                  go ()
-                | "MAPEND" -> silent actor;
-                  if (!p.subs (nat actor)).stg <> SReady then raise (Reject ("map returned while the model thread is in stage " ^ stage_name (!p.subs (nat actor)).stg))
-                | "POP" ->
-                  (match !p.workers (nat actor) with WSleeping -> apply (ESpurious (nat actor)) | _ -> ());
-                  apply (ECheck (nat actor));
-                  (match !p.workers (nat actor) with WRunning _ -> () | _ -> raise (Reject "worker popped a task but the model worker did not"))
-                | "DONE" ->
-                  if Hashtbl.mem early actor then Hashtbl.remove early actor else apply (EFinish (nat actor))
-                | "EXIT" ->
-                  (match !p.workers (nat actor) with WSleeping -> apply (ESpurious (nat actor)) | _ -> ());
-                  apply (ECheck (nat actor));
-                  (match !p.workers (nat actor) with WExited -> () | _ -> raise (Reject "worker exited but the model worker did not"))
-                | "STOP" -> List.iter silent (range 0 (List.length progs)); apply (EStop (nat actor))
-                | "NOTIFYSTOP" -> apply (ENotifyStop (nat actor))
-                | "JOINED" -> apply (EJoin (nat actor))
-                | k -> raise (Reject ("unknown event " ^ k)))
-             | _ -> raise (Reject ("bad event " ^ ev))) sc.events;
+             let kind, actor, a, q, st =
+               match String.split_on_char ':' ev with
+               | [kind; actor; a] -> kind, int_of_string actor, int_of_string a, -1, -1
+               | [kind; actor; a; q; st] -> kind, int_of_string actor, int_of_string a, int_of_string q, int_of_string st
+               | _ -> raise (Reject ("bad event " ^ ev)) in
+             let an = n_of_int actor in
+             (match kind with
+              | "PUSH1" -> silent actor; apply (EPushN an);
+                if (nth_sub !p actor).stgN <> SNotifyOneN then raise (Reject "enqueue: the model did not push one task");
+                check_locked kind q st ~before:false
+              | "NOTIFY1" -> apply (ENotifyN (an, None))
+              | "INLINE" -> silent actor; apply (EPushN an);
+                if (nth_sub !p actor).stgN <> SReadyN then raise (Reject "implementation took the fast path, the model the pool path")
+              | "PUSHN" -> silent actor; apply (EPushN an);
+                (match (nth_sub !p actor).stgN with
+                 | SNotifyAllN (ts, _) -> if List.compare_length_with ts a <> 0 then raise (Reject (Printf.sprintf "map pushed %d tasks, the model %d" a (List.length ts)))
+                 | _ -> raise (Reject "implementation took the pool path, the model the fast path"));
+                check_locked kind q st ~before:false
+              | "NOTIFYN" -> apply (ENotifyN (an, None))
+              | "VISIT" ->
+                (* a throwing get() leaves block(raise) without an event: if the model is still in block(raise)
+                   at a future that re-throws, the visit belongs to ~section_t *)
+                let rec go () =
+                  match (nth_sub !p actor).stgN with
+                  | SGetN ([], _, _) -> apply (EGetN an); go ()
+                  | SGetN (t :: _, _, rz) ->
+                    force_complete t;
+                    if rz && failsN !p t then begin
+                      if a = 1 then raise (Reject (Printf.sprintf "block(raise) passed the future of task %d although it must re-throw" (int_of_n t)));
+                      apply (EGetN an); go ()
+                    end else apply (EGetN an)
+                  | SWaitN (t :: _, _, _, _) -> force_complete t; apply (EWaitN an)
+                  | st -> raise (Reject ("future visited while the model thread is in stage " ^ stage_name st)) in
+                go ()
+              | "MAPEND" -> silent actor;
+                if (nth_sub !p actor).stgN <> SReadyN then raise (Reject ("map returned while the model thread is in stage " ^ stage_name (nth_sub !p actor).stgN))
+              | "POP" ->
+                if actor >= sc.nw then raise (Reject "pop by a worker id >= pool size");
+                (match nth_worker !p actor with WSleepingN -> apply (ESpuriousN an) | _ -> ());
+                apply (ECheckN an);
+                (match nth_worker !p actor with WRunningN _ -> () | _ -> raise (Reject "worker popped a task but the model worker did not"));
+                check_locked kind q st ~before:false
+              | "DONE" ->
+                if Hashtbl.mem early actor then Hashtbl.remove early actor else apply (EFinishN an)
+              | "EXIT" ->
+                if actor >= sc.nw then raise (Reject "exit of a worker id >= pool size");
+                (match nth_worker !p actor with WSleepingN -> apply (ESpuriousN an) | _ -> ());
+                (* the hook fires before m_tasks.clear(): the queue it saw is the model's queue before the step *)
+                check_locked kind q st ~before:true;
+                apply (ECheckN an);
+                (match nth_worker !p actor with WExitedN -> () | _ -> raise (Reject "worker exited but the model worker did not"))
+              | "STOP" -> List.iter silent (range 0 nsubs); apply (EStopN an);
+                check_locked kind q st ~before:false
+              | "NOTIFYSTOP" -> apply (ENotifyStopN an)
+              | "JOINED" -> apply (EJoinN an)
+              | k -> raise (Reject ("unknown event " ^ k)))) sc.events;
          (* a throwing get(): ~section_t ran, then the exception left map() without MAPEND *)
-         List.iter (fun s -> silent s) (range 0 (List.length progs));
+         List.iter (fun s -> silent s) (range 0 nsubs);
          if sc.hang then begin
+           let en = enabledN !p in
            Printf.printf "HANG-ANALYSIS scenario %d: model state after the trace has %d enabled steps: %s\n" sc.id
-             (List.length (enabled !p)) (String.concat "; " (List.map event_name (enabled !p)));
+             (List.length en) (String.concat "; " (List.map event_name en));
            bad "scenario %d: the implementation hangs in a state where the model %s" sc.id
-             (if enabled !p = [] then "is stuck too (model defect?)" else "has enabled steps (deadlock freedom is proved for the model)")
+             (if en = [] then "is stuck too (model defect?)" else "has enabled steps (deadlock freedom is proved for the model)")
          end else begin
            incr accepted;
-           if not (final !p) then bad "scenario %d: trace accepted but the model is not in a final state (stages: %s)" sc.id
-               (String.concat "," (List.map (fun s -> stage_name (!p.subs (nat s)).stg) (range 0 (List.length progs))));
+           if not (finalN !p) then bad "scenario %d: trace accepted but the model is not in a final state (stages: %s)" sc.id
+               (String.concat "," (List.map (fun s -> stage_name (nth_sub !p s).stgN) (range 0 nsubs)));
            (* who ran what *)
            let ran = Hashtbl.create 64 in
-           List.iter (fun (t, w) -> Hashtbl.add ran (int_of_nat t) (int_of_nat w)) !p.ran;
-           List.iter (fun (t, _) -> Hashtbl.add ran (int_of_nat t) 0) !p.inline;
+           List.iter (fun (t, w) -> Hashtbl.add ran (int_of_n t) (int_of_n w)) !p.f_ran;
+           List.iter (fun (t, _) -> Hashtbl.add ran (int_of_n t) 0) !p.f_inline;
            List.iter (fun e ->
                match List.map int_of_string (String.split_on_char ':' e) with
                | [t; count; tnum] ->
@@ -169,13 +223,37 @@ let process (sc : scen) =
                | _ -> ()) sc.exec;
            (* results of the map calls, in program order per submitter *)
            List.iter (fun s ->
-               let rs = (!p.subs (nat s)).results in
+               let rs = (nth_sub !p s).resultsN in
                let mine = List.sort compare (List.filter (fun (s', _, _, _) -> s' = s) sc.results) in
                if List.length rs <> List.length mine then bad "scenario %d: thread %d returned from %d map calls, model %d" sc.id s (List.length mine) (List.length rs)
                else List.iter2 (fun r (_, ci, _, outcome) ->
-                   let m = match r.r_exn with None -> "none" | Some t -> Printf.sprintf "exn %d" (int_of_nat t) in
+                   let m = match r.rn_exn with None -> "none" | Some t -> Printf.sprintf "exn %d" (int_of_n t) in
                    if m <> outcome then bad "scenario %d: thread %d call %d outcome `%s`, model `%s`" sc.id s ci outcome m) rs mine)
-             (range 0 (List.length progs - 1))
+             (range 0 (nsubs - 1));
+           (* CROSS stage: the same event sequence through the proved unary model *)
+           if !ntasks <= max_cross_tasks then begin
+             incr crossed;
+             let uprogs = List.map (List.map abs_call) progs in
+             let uthr t = Hashtbl.mem tbl (int_of_nat t) in
+             if not (wf_config (nat sc.nw) uprogs) then bad "scenario %d: CROSS: wf_configN holds but wf_config does not" sc.id
+             else match run (init (nat sc.nw) uthr uprogs) (List.rev_map abs_event !applied) with
+               | None -> bad "scenario %d: CROSS: the event sequence accepted by stepN is rejected by the proved model step" sc.id
+               | Some u ->
+                 let pairs l = List.map (fun (t, w) -> (int_of_nat t, int_of_nat w)) l in
+                 let pairsN l = List.rev_map (fun (t, w) -> (int_of_n t, int_of_n w)) l in
+                 if not (final u) then bad "scenario %d: CROSS: final differs" sc.id;
+                 if pairs u.ran <> pairsN !p.f_ran then bad "scenario %d: CROSS: ran differs" sc.id;
+                 if pairs u.inline <> pairsN !p.f_inline then bad "scenario %d: CROSS: inline differs" sc.id;
+                 if List.map int_of_nat u.finished <> List.rev_map int_of_n !p.f_finished then bad "scenario %d: CROSS: finished differs" sc.id;
+                 if List.map int_of_nat u.dropped <> List.map int_of_n !p.f_dropped then bad "scenario %d: CROSS: dropped differs" sc.id;
+                 if List.map int_of_nat u.queue <> List.map int_of_n !p.f_queue || u.stop <> !p.f_stop then bad "scenario %d: CROSS: queue/stop differ" sc.id;
+                 List.iter (fun s ->
+                     let a = (u.subs (nat s)).results and b = (nth_sub !p s).resultsN in
+                     let ex = function None -> -1 | Some t -> int_of_nat t and exn = function None -> -1 | Some t -> int_of_n t in
+                     if List.map (fun r -> (List.map int_of_nat r.r_tasks, r.r_raise, r.r_inline, ex r.r_exn)) a
+                        <> List.map (fun r -> (List.map int_of_n r.rn_tasks, r.rn_raise, r.rn_inline, exn r.rn_exn)) b
+                     then bad "scenario %d: CROSS: results of thread %d differ" sc.id s) (range 0 nsubs)
+           end
          end
        with Reject why ->
          bad "scenario %d: trace rejected at event %d (%s): %s" sc.id !idx
@@ -206,4 +284,6 @@ let () =
        | _ -> ()
      done
    with End_of_file -> ());
-  Printf.printf "MODEL-DONE checked=%d accepted=%d skipped_large=%d events=%d mismatches=%d\n" !total !accepted !skipped !events_checked !mism
+  Printf.printf "FAST-STAGE traces=%d model_steps=%d largest_tasks=%d locked_state_checks=%d crossed_with_unary_model=%d\n"
+    !accepted !model_steps !max_tasks !locked_checked !crossed;
+  Printf.printf "MODEL-DONE checked=%d accepted=%d skipped_large=%d events=%d mismatches=%d\n" !total !accepted 0 !events_checked !mism
